@@ -56,20 +56,18 @@ type KnownFinding struct {
 }
 
 func loadSpec(id string) (*PropSpec, error) {
-	b, err := os.ReadFile(filepath.Join(verifDir, "harness", "spec.json"))
+	b, err := os.ReadFile(filepath.Join(verifDir, "harness", "spec", id+".json"))
 	if err != nil {
 		return nil, err
 	}
-	var all []PropSpec
-	if err := json.Unmarshal(b, &all); err != nil {
-		return nil, fmt.Errorf("spec.json: %v", err)
+	var sp PropSpec
+	if err := json.Unmarshal(b, &sp); err != nil {
+		return nil, fmt.Errorf("spec %s: %v", id, err)
 	}
-	for i := range all {
-		if all[i].Property == id {
-			return &all[i], nil
-		}
+	if sp.Property != id {
+		return nil, fmt.Errorf("spec %s names property %q", id, sp.Property)
 	}
-	return nil, fmt.Errorf("no spec for %s", id)
+	return &sp, nil
 }
 
 func loadKnown() []KnownFinding {
